@@ -2,6 +2,7 @@ package scen
 
 import (
 	"bytes"
+	"context"
 	"encoding/json"
 	"fmt"
 	"io"
@@ -88,7 +89,7 @@ func scenQRY(s *sched.Sim, cfg Config, res *Result) {
 	m := s.T.Range(1, maxM)
 	withFiles := s.T.Bool(1, 5)
 	nFaults := []int{0, 0, 0, 1, 1, 2}[s.T.Choose(6)]
-	kinds := []string{"ErrBefore", "ErrAfter", "Status", "ReadErr", "not-json", "element-errors", "not-array"}
+	kinds := []string{"ErrBefore", "ErrAfter", "Status", "ReadErr", "not-json", "element-errors", "not-array", "Cancelled", "DeadlineExceeded"}
 	type fplan struct {
 		ordinal int
 		kind    string
@@ -132,6 +133,11 @@ func scenQRY(s *sched.Sim, cfg Config, res *Result) {
 				switch p.kind {
 				case "ErrBefore", "ErrAfter":
 					return &simnet.Fault{Kind: p.kind}
+				case "Cancelled":
+					// the caller's context ends while this call is in flight
+					return &simnet.Fault{Kind: "ErrAfter", Err: context.Canceled}
+				case "DeadlineExceeded":
+					return &simnet.Fault{Kind: "ErrBefore", Err: context.DeadlineExceeded}
 				case "Status":
 					return &simnet.Fault{Kind: "Status", Status: 503, Body: []byte(`{"errors":[{"message":"unavailable"}]}`)}
 				case "ReadErr":
